@@ -346,3 +346,26 @@ pub open spec fn bdd_matoms_wf(defs: Defs, b: Bdd) -> bool
             matom_wf(mt_of(defs, atom)) && bdd_matoms_wf(defs, *left) && bdd_matoms_wf(defs, *middle) && bdd_matoms_wf(defs, *right),
     }
 }
+
+// T2: derived structural `PartialEq` on the tag enum
+impl vstd::std_specs::cmp::PartialEqSpecImpl for SubTypeTag {
+    open spec fn obeys_eq_spec() -> bool { true }
+    open spec fn eq_spec(&self, other: &SubTypeTag) -> bool { *self == *other }
+}
+pub assume_specification[ <SubTypeTag as PartialEq>::eq ](a: &SubTypeTag, b: &SubTypeTag) -> (r: bool)
+    ensures r == (*a == *b);
+// ---- `SemTypeContext::indexed_access`: T[K] = (T's list part)[K] | (T's object part)[K] | string when a string is
+// indexed by a number
+pub open spec fn some_part(t: SemType, tag: SubTypeTag) -> bool { exists|i: int| 0 <= i < t.subtype_data@.len() && ptag(*#[trigger] t.subtype_data@[i]) == tag }
+// what the code calls "is a subtype of string / number": the whole tag is there, or nothing whole is and a part of that tag is
+pub open spec fn strlike(t: SemType) -> bool { bit(t.all, 8u32) || (t.all == 0 && some_part(t, SubTypeTag::String)) }
+pub open spec fn numlike(t: SemType) -> bool { bit(t.all, 4u32) || (t.all == 0 && some_part(t, SubTypeTag::Number)) }
+// the postconditions of the two tops, as predicates of their result
+pub closed spec fn list_top(defs: Defs, obj: SemType, idx: SemType, lr: SemType) -> bool {
+    &&& !has_number_part(idx) ==> forall|v: Val| !#[trigger] mem(lr, v)
+    &&& has_number_part(idx) && list_parts_wf(defs, obj) ==> exists|key: ListNumberKey| #[trigger] key_for(idx, key) && (key_ok(key) ==> list_access_spec(defs, obj, key, lr))
+}
+pub closed spec fn map_top(defs: Defs, obj: SemType, idx: SemType, mr: SemType) -> bool {
+    &&& no_mapping_part(obj) ==> forall|v: Val| !#[trigger] mem(mr, v)
+    &&& !no_mapping_part(obj) && mapping_parts_wf(defs, obj) ==> exists|key: Option<MappingStrKey>| #[trigger] str_key_for(idx, key) && mapping_access_spec(defs, obj, key, mr)
+}
